@@ -149,7 +149,7 @@ def canaries(pr):
 
     def overwrite(pr):
         f, w = _fr.detail_writer(pr)
-        return [A.bvc("canary", "link", "year_entry_is_overwritten", w is not None and any(s[0].startswith("self.__tax_sheet_year_2_row[") for s in w.stores), _fr.REL)]
+        return [A.bvc("canary", "link", "year_entry_is_overwritten", w is not None and any(s[0].startswith("self.__tax_sheet_year_2_row[") and not any("not in" in g[0] for g in s[2]) for s in w.stores), _fr.REL)]
     return [("lot_cell_linked_to_event_must_fail", wrong_target), ("year_map_plain_assignment_must_fail", overwrite)]
 
 MANIFEST_ENTRY = {
